@@ -188,22 +188,10 @@ func (e *c07Env) viaRouter(msg sdk.Msg) func(ctx sdk.Context) (sdk.Coins, error)
 }
 
 // c07CollisionsEnabled: histories in which two different senders share their first 32 bytes reproduce the
-// known finding "quarantine-record-key-truncation-collision".  They are generated when VERIF_C07_COLLIDE=1,
-// never when it is 0, and otherwise exactly when known_findings.json lists that fingerprint as known (the
-// check then reports KNOWN-FINDING; without the entry it would report VIOLATION on the unchanged tree).
+// known finding "quarantine-record-key-truncation-collision".  They are part of every run (the check
+// classifies them as KNOWN-FINDING by their fingerprint); VERIF_C07_COLLIDE=0 leaves them out.
 func c07CollisionsEnabled() bool {
-	switch os.Getenv("VERIF_C07_COLLIDE") {
-	case "1":
-		return true
-	case "0":
-		return false
-	}
-	for _, p := range []string{"../known_findings.json", "known_findings.json", "/verif/known_findings.json"} {
-		if bz, err := os.ReadFile(p); err == nil {
-			return strings.Contains(string(bz), "quarantine-record-key-truncation-collision")
-		}
-	}
-	return false
+	return os.Getenv("VERIF_C07_COLLIDE") != "0"
 }
 
 func sumAcc(l []c07Rec) int {
